@@ -377,7 +377,87 @@ def gen_cases(rng, tier, only_forms=None):
             cases.append({'kind': 'network', 'tag': 'symbolic', 'sym': {'expr': e, 'point': pt}, 'form': form, 'mode': 'impedance'})
     for c in cases:
         c['xs'] = [fs(rz(rng, 1, 9, 7, neg=True)) for _ in range(3)]
+    # transform() of NESTED one-ports through the pattern forms (own generator: the stream above is unchanged):
+    # Ser[.., Ser[..]] of R/G/L/C leaves has Z = cm/s + c0 + c1 s (repeated kinds add up), Par[.., Par[..]] the same for Y
+    rng2 = random.Random(core.seed() * 7919 + 1919)
+    for i in range(6 if tier == 'quick' else 48):
+        ser = i % 2 == 0
+        op = 'Ser' if ser else 'Par'
+        leaf = lambda: [rng2.choice('RGLC'), fs(rz(rng2, neg=(i % 3 == 2)))]
+        t = [op] + [leaf() for _ in range(rng2.choice([1, 2]))] + [[op] + [leaf() for _ in range(rng2.choice([2, 3]))]]
+        if i % 4 == 3:
+            t = [op, t[1], ['Par' if ser else 'Ser', leaf(), leaf()]]      # mixed: usually NOT of the form (error expected)
+        n, d = tree_Z(t)
+        if not n or not d:
+            continue
+        mine = [f for f in FORMS if f.startswith('series' if ser else 'parallel')]
+        for form in [mine[-1], 'RLC', rng2.choice(mine[:-1])] + ([rng2.choice(FORMS)] if i % 2 else []):
+            if only_forms and form not in only_forms:
+                continue
+            cases.append({'kind': 'transform', 'tag': 'transform-pat', 'net': t, 'form': form,
+                          'xs': [fs(rz(rng2, 1, 9, 7, neg=True)) for _ in range(3)]})
     return cases
+
+
+def laurent_like(n, d):
+    """n/d = cm/s + c0 + c1 s  (d = c s^k, k <= 1, deg n <= k + 1)"""
+    n, d = ptrim(n), ptrim(d)
+    if not n or not d or any(c != 0 for c in d[:-1]):
+        return False
+    k = len(d) - 1
+    return k <= 1 and len(n) - 1 <= k + 1
+
+
+def gen_chain_cases(rng2, tier, cases, results):
+    """second round: networks RETURNED by the first round (ladders, Foster sections, G elements, negative values,
+    nesting deeper than the random trees) are transformed again into another form:
+    network -> immittance -> network -> immittance -> network"""
+    pool, seen = [], set()
+    for c, r in zip(cases, results):
+        if r.get('status') != 'net' or r.get('tree') is None or r.get('sdep') or r.get('oracle') == 'bad' or c.get('sym'):
+            continue
+        if independent_check(c, r) is False:
+            continue
+        t = r['tree']
+        key = json.dumps(t)
+        if key in seen:
+            continue
+        try:
+            n, d = tree_Z(t)
+        except ZeroDivisionError:
+            continue
+        if not ptrim(n) or not ptrim(d) or len(n) > 6 or len(d) > 6:
+            continue
+        seen.add(key)
+        pool.append((c, t, n, d))
+    rng2.shuffle(pool)
+    pool.sort(key=lambda e: -tree_depth(e[1]))            # deepest first (stable: ties keep the shuffled order)
+    nmax = 20 if tier == 'quick' else 220
+    deep, rest = pool[:nmax // 2], pool[nmax // 2:]
+    rng2.shuffle(rest)
+    out = []
+    tforms = ['cauerI', 'cauerII', 'fosterI', 'fosterII']
+    ser = [f for f in FORMS if f.startswith('series')]
+    par = [f for f in FORMS if f.startswith('parallel')]
+    for k, (c, t, n, d) in enumerate(deep + rest[:nmax - len(deep)]):
+        g = pgcd(n, d)
+        if len(g) > 1:
+            n, d = pdivmod(n, g)[0], pdivmod(d, g)[0]
+        # Foster forms only where the poles are roots of a quadratic at most (cubic root finding in sympy takes > 20 s)
+        ok = [f for f in tforms if f != c['form'] and not (f == 'fosterI' and len(d) > 3) and not (f == 'fosterII' and len(n) > 3)]
+        forms = [rng2.choice(ok)]
+        if laurent_like(n, d):
+            forms.append(rng2.choice(ser + ['RLC']))
+        elif laurent_like(d, n):
+            forms.append(rng2.choice(par + ['RLC']))
+        elif k % 3 == 0:
+            forms.append(rng2.choice(ser + par + ['RLC']))
+        if k % 9 == 4:
+            forms.append('default')
+        for form in forms:
+            out.append({'kind': 'transform', 'tag': 'chain', 'net': t, 'form': form, 'from': c['form'],
+                        'xs': [fs(rz(rng2, 1, 9, 7, neg=True)) for _ in range(3)]})
+    return out
 
 
 # ---- Coq text --------------------------------------------------------------------------
@@ -489,7 +569,23 @@ def gen_theorems(tr):
                '  transform_model synth_default synth_forms n0 form ts = Ok (Some nt) -> x <> 0 -> Zwf n0 x ->\n'
                '  Forall (fun f => peval (snd f) x <> 0) ts -> Zwf nt x -> Zev nt x = Zev n0 x.\n'
                'Proof. exact (transform_preserves_Z K synth_default synth_forms forms_wf). Qed.')
-    names += ['forms_wf', 'network_realises', 'transform_preserves_Z_all']
+    # chains through the translated tables: transform of a transformed network, transform of a synthesised network
+    FA = 'Forall (fun f => peval (snd f) x <> 0)'
+    out.append('Theorem transform_twice_preserves_Z : forall (n0 : net K) f1 ts1 n1 f2 ts2 n2 x,\n'
+               '  transform_model synth_default synth_forms n0 f1 ts1 = Ok (Some n1) ->\n'
+               '  transform_model synth_default synth_forms n1 f2 ts2 = Ok (Some n2) ->\n'
+               '  x <> 0 -> Zwf n0 x -> Zwf n1 x -> Zwf n2 x -> %s ts1 -> %s ts2 -> Zev n2 x = Zev n0 x.\n'
+               'Proof. intros n0 f1 ts1 n1 f2 ts2 n2 x H1 H2 Hx W0 W1 W2 T1 T2.\n'
+               '  rewrite (transform_preserves_Z_all n1 f2 ts2 n2 x H2 Hx W1 T2 W2).\n'
+               '  exact (transform_preserves_Z_all n0 f1 ts1 n1 x H1 Hx W0 T1 W1). Qed.' % (FA, FA))
+    out.append('Theorem network_then_transform_realises : forall f1 (N D : list K) ts1 n1 f2 ts2 n2 x,\n'
+               '  network_model synth_default synth_forms f1 N D ts1 = Ok (Some n1) ->\n'
+               '  transform_model synth_default synth_forms n1 f2 ts2 = Ok (Some n2) ->\n'
+               '  x <> 0 -> peval D x <> 0 -> Zwf n1 x -> Zwf n2 x -> %s ts1 -> %s ts2 -> Zev n2 x = peval N x / peval D x.\n'
+               'Proof. intros f1 N D ts1 n1 f2 ts2 n2 x H1 H2 Hx Hd W1 W2 T1 T2.\n'
+               '  rewrite (transform_preserves_Z_all n1 f2 ts2 n2 x H2 Hx W1 T2 W2).\n'
+               '  exact (network_realises f1 N D ts1 n1 x H1 Hx Hd T1 W1). Qed.' % (FA, FA))
+    names += ['forms_wf', 'network_realises', 'transform_preserves_Z_all', 'transform_twice_preserves_Z', 'network_then_transform_realises']
     out.append('End Obl.\n')
     # non-vacuity: the premises are satisfiable (a network is returned and is non-degenerate at a point)
     nv = [('cauerI', '[qc 3 1; qc 4 1; qc 1 1]', '[qc 0 1; qc 2 1; qc 1 1]', '[]'),
@@ -503,6 +599,16 @@ def gen_theorems(tr):
             continue
         out.append('Example nv_%s : match network_model (K:=QcF) synth_default synth_forms "%s"%%string %s %s %s with\n'
                    '  | Ok (Some nt) => Zwfb nt (qc 2 3) | _ => false end = true.\nProof. vm_compute. reflexivity. Qed.' % (form, form, N, D, ts))
+    if 'cauerI' in tr.order and 'cauerII' in tr.order and 'seriesRLC' in tr.order:
+        N, D = '[qc 3 1; qc 4 1; qc 1 1]', '[qc 0 1; qc 2 1; qc 1 1]'
+        out.append('Example nv_chain : match network_model (K:=QcF) synth_default synth_forms "cauerI"%%string %s %s [] with\n'
+                   '  | Ok (Some n1) => match transform_model (K:=QcF) synth_default synth_forms n1 "cauerII"%%string [] with\n'
+                   '      | Ok (Some n2) => andb (andb (Zwfb n1 (qc 2 3)) (Zwfb n2 (qc 2 3))) (negb (net_eqb n1 n2)) | _ => false end\n'
+                   '  | _ => false end = true.\nProof. vm_compute. reflexivity. Qed.' % (N, D))
+        out.append('Example nv_chain_pat : match transform_model (K:=QcF) synth_default synth_forms\n'
+                   '    (@Ser QcF [@Leaf QcF kR (qc 2 1); @Ser QcF [@Leaf QcF kL (qc 3 1); @Leaf QcF kG (qc 4 1); @Leaf QcF kC (qc 5 1)]]) "seriesRLC"%string [] with\n'
+                   '  | Ok (Some n1) => andb (Zwfb n1 (qc 2 3)) (feqb (Zev n1 (qc 2 3)) (qc 91 20 : QcF)) | _ => false end = true.\n'
+                   'Proof. vm_compute. reflexivity. Qed.')
     out.append('\n'.join('Print Assumptions %s.' % n for n in names if not n.startswith('coeff_') and n != 'forms_wf'))
     return '\n\n'.join(out) + '\n'
 
@@ -760,6 +866,12 @@ def run(tier='quick', replay=None):
         else:
             cases = gen_cases(rng, tier)
         results = core.run_impl('impl_synth.py', cases)
+        if not replay:
+            chain = gen_chain_cases(random.Random(core.seed() * 15485863 + 1919), tier, cases, results)
+            if chain:
+                cases = cases + chain
+                results = results + core.run_impl('impl_synth.py', chain)
+            res.extra['chain_cases'] = len(chain)
         th.join()
         res.coq_results(w.dir, proof_res, {f: texts[f] for f in files})
         res.extra['coq_seconds'] = {f: round(r[2], 1) for f, r in proof_res.items()}
